@@ -26,16 +26,17 @@ EXHAUSTIVE = True
 
 def cases(tier):
     out = []
-    for d in range(1, 5):
-        for p in range(1, 5):
-            if d ** p <= 256:
+    big = tier == "thorough"
+    for d in range(1, 6 if big else 5):
+        for p in range(1, 6 if big else 5):
+            if d ** p <= (1024 if big else 256):
                 out.append(("proj", d, p))
-    for n in range(1, 7):
+    for n in range(1, 8 if big else 7):
         out.append(("sign", n))
-    for n in range(1, 7):
-        for k in range(1, 4):
+    for n in range(1, 8 if big else 7):
+        for k in range(1, 5 if big else 4):
             out.append(("uperm", n, k))
-    for n in range(0, 11):
+    for n in range(0, 13 if big else 11):
         out.append(("match", n))
     return out
 
